@@ -64,8 +64,31 @@ thread_local! {
     } };
 }
 
+thread_local! {
+    /// memory of dropped futures, kept allocated until the history ends: a dangling queue entry
+    /// then points to dead-but-mapped memory (the structural oracle reports it instead of the
+    /// process crashing), and no new future can reuse the address and mask the dangling entry
+    static GRAVEYARD: RefCell<Vec<(*mut u8, Layout)>> = const { RefCell::new(Vec::new()) };
+}
+
+pub fn bury(ptr: *mut u8, layout: Layout) {
+    if layout.size() == 0 {
+        return;
+    }
+    GRAVEYARD.with(|g| g.borrow_mut().push((ptr, layout)));
+}
+
+fn free_graveyard() {
+    GRAVEYARD.with(|g| {
+        for (p, l) in g.borrow_mut().drain(..) {
+            unsafe { System.dealloc(p, l) };
+        }
+    });
+}
+
 /// Reset everything that belongs to one history.
 pub fn reset_history() {
+    free_graveyard();
     TLS.with(|t| {
         t.seq.set(0);
         for i in 0..MAX_WAKERS {
